@@ -16,13 +16,31 @@ pub(super) fn infix_from_timestamp(
     .to_string()
 }
 
+// retrieves the infix, including an optional ".restart-<number>" extension, from the file name
 fn ts_infix_from_path(path: &Path, file_spec: &FileSpec) -> String {
-    let idx = file_spec
-        .as_pathbuf(Some("rXXXXX"))
-        .to_string_lossy()
-        .find("rXXXXX")
-        .unwrap();
-    String::from_utf8_lossy(&path.to_string_lossy().as_bytes()[idx..idx + 20]).to_string()
+    let file_name = path
+        .file_name()
+        .map(|s| s.to_string_lossy().to_string())
+        .unwrap_or_default();
+    let mut infix: &str = &file_name;
+    if let Some(suffix) = file_spec.get_suffix() {
+        if let Some(s) = infix
+            .strip_suffix(suffix.as_str())
+            .and_then(|s| s.strip_suffix('.'))
+        {
+            infix = s;
+        }
+    }
+    let fixed_name_part = file_spec.fixed_name_part();
+    if !fixed_name_part.is_empty() {
+        if let Some(s) = infix
+            .strip_prefix(fixed_name_part.as_str())
+            .and_then(|s| s.strip_prefix('_'))
+        {
+            infix = s;
+        }
+    }
+    infix.to_string()
 }
 
 pub(crate) fn timestamp_from_ts_infix(
@@ -83,34 +101,52 @@ pub(super) fn creation_timestamp_of_currentfile(
     Ok(get_creation_timestamp(&current_path))
 }
 
-// determine the timestamp to which we want to write (file needn't exist)
+// determine the timestamp and the infix of the file to which we want to write
+// (file needn't exist)
 pub(super) fn latest_timestamp_file(
     config: &FileLogWriterConfig,
     rotate: bool,
     fmt: &InfixFormat,
-) -> DateTime<Local> {
+) -> (DateTime<Local>, String) {
     #[cfg(feature = "verif_hooks")]
     use crate::verif_hooks::VLocal as Local;
-    if rotate {
-        Local::now()
+    let o_latest = if rotate {
+        None
     } else {
         // find all file paths that fit the pattern
         config
             .file_spec
             .list_of_files(
-                &InfixFilter::Numbrs,
+                &InfixFilter::Timstmps(fmt.clone()),
                 config.file_spec.get_suffix().as_deref(),
             )
             .into_iter()
             // retrieve the infix
             .map(|path| ts_infix_from_path(&path, &config.file_spec))
-            // parse infix as date, ignore all infixes where this fails
-            .filter_map(|infix| timestamp_from_ts_infix(&infix, fmt).ok())
-            // take the newest of these dates
+            // parse infix (without restart extension) as date,
+            // ignore all infixes where this fails
+            .filter_map(|infix| {
+                let ts_part = infix.split(".restart-").next().unwrap_or(&infix);
+                timestamp_from_ts_infix(ts_part, fmt)
+                    .ok()
+                    .map(|ts| (ts, infix))
+            })
+            // take the newest of these (a restart extension makes a file newer)
             .reduce(|acc, e| if acc > e { acc } else { e })
-            // if nothing is found, take Local::now()
-            .unwrap_or_else(Local::now)
-    }
+    };
+    // if nothing is found or wanted, start a file for Local::now(), and don't reuse the name
+    // of an existing file
+    o_latest.unwrap_or_else(|| {
+        let now = Local::now();
+        let infix = config
+            .file_spec
+            .collision_free_infix_for_rotated_file(&infix_from_timestamp(
+                &now,
+                config.use_utc,
+                fmt,
+            ));
+        (now, infix)
+    })
 }
 
 fn path_for_rotated_file_from_timestamp(
